@@ -3,6 +3,7 @@
 //! Drives the real versatiles-rs crates; writes cases.txt / impl.txt / stats.json into DIR.
 mod common;
 mod alloc_count;
+mod c01_extra;
 mod c01_sparse;
 mod c19;
 mod c19_gen;
